@@ -125,7 +125,16 @@ def build_case(rng):
           "max_iterations": 40, "events": rng.choice([True, "async"]), "sched_seed": rng.randint(0, 10**6), "fresh_rank": True}
     if rc["runner"] == "async" and rng.random() < 0.4:
         rc["max_concurrency"] = rng.choice([1, 2, 2, 3])       # a bounded pool (runner.map: worker pool; run: shared limiter)
-    if not run_map and rng.random() < 0.25:
+    if fam == "gated" and rng.random() < 0.5:
+        # select the outputs of a gate's branches with a strict policy: a branch not taken produces nothing, so the run completes
+        # and the call then fails (or warns) on the missing output - the stream must still hold ONE RunEnd, with what the caller sees
+        tg = [t for nn in g["nodes"] if nn["kind"] in ("route", "ifelse")
+              for t in (nn.get("targets") or [nn.get("when_true"), nn.get("when_false")]) if t and t != "END"]
+        outs = [o for nn in g["nodes"] if nn["name"] in tg for o in nn.get("outputs", [])]
+        if outs:
+            rc["select"] = rng.sample(outs, rng.randint(1, min(2, len(outs))))
+            rc["on_missing"] = rng.choice(["error", "error", "warn"])
+    elif not run_map and rng.random() < 0.25:
         outs = [o for nn in g["nodes"] for o in gen.iface(nn)[1]]
         if outs:
             rc["select"] = rng.sample(outs, rng.randint(1, min(2, len(outs))))
